@@ -173,7 +173,7 @@ class C09Engine(GenEngineBase):
     def make_case(self, seed, tier="quick"):
         kn = stream(seed, "interp")
         cfg = dict(targets=list(TARGETS) + list(self.extra_targets), n_requests=30 if tier == "quick" else 45, allow_faults=True,
-                   shared=True, debug_levels=DEBUG_LEVELS)
+                   shared=True, debug_levels=DEBUG_LEVELS, generated_programs=0.08 if tier == "quick" else 0.2)
         return {"seed": seed, "hashseed": kn.choice([0, 1, 2, 3, kn.randrange(2**32), kn.randrange(2**32)]),
                 "history": H.gen_history(seed, self.universe, cfg)}
 
@@ -195,7 +195,15 @@ class C09Engine(GenEngineBase):
                 continue
             k = o["key"]
             if k not in REF:
-                self.compute_reference(only={k})
+                if o.get("req"):
+                    # a generated program: its reference is made on demand, alone in a fresh interpreter
+                    solo = {"seed": 0, "history": H.solo_history(o["req"], {"key": k, "debug": o["debug"]})}
+                    solo["history"][-1][3] = "cmp"
+                    outs = run_child(solo, 0)["outputs"]
+                    REF[k] = outs[0]["text"] if outs else None
+                    stats["references_made_for_generated_programs"] = stats.get("references_made_for_generated_programs", 0) + 1
+                else:
+                    self.compute_reference(only={k})
             ref = REF.get(k)
             if ref is None:
                 stats["reference_unavailable"] = stats.get("reference_unavailable", 0) + 1
